@@ -24,7 +24,7 @@ ASSUMPTIONS = ["inputs are oriented manifold polygon surfaces without unused ver
 def cases(seed, tier):
     rng = random.Random(seed * 7919 + 1)
     out = []
-    n = 400 if tier == "quick" else 3000
+    n = 400 if tier == "quick" else 8000
     korders = 4 if tier == "quick" else 10
     rows = ["list", "tuple", "npint", "nprow"]
     for i in range(n):
